@@ -60,15 +60,31 @@ def r2_construction(prog, rep: Report, im):
     rep.fn(f)
     mapping = f.params[1]
     loop = None
+    keys_only = False
+    vflow_ = Flow(f.node)
     for n in walk_own(f.node):
-        if isinstance(n, ast.For) and src(n.iter) in (f"{mapping}.items()",):
+        if not isinstance(n, ast.For):
+            continue
+        it_ = vflow_.expand(n.iter) if isinstance(n.iter, ast.Name) else n.iter
+        while isinstance(it_, ast.Call) and src(it_.func) in ("list", "tuple") and len(it_.args) == 1 and not it_.keywords:
+            it_ = it_.args[0]                       # items = list(mapping.items())
+        if src(it_) == f"{mapping}.items()" and isinstance(n.target, ast.Tuple) and len(n.target.elts) == 2 \
+                and isinstance(n.target.elts[0], ast.Tuple) and len(n.target.elts[0].elts) == 2:
             loop = n
             break
-    if loop is None or not (isinstance(loop.target, ast.Tuple) and isinstance(loop.target.elts[0], ast.Tuple)):
+        if src(it_) in (mapping, f"{mapping}.keys()") and isinstance(n.target, ast.Tuple) and len(n.target.elts) == 2 \
+                and all(isinstance(x, ast.Name) for x in n.target.elts):
+            loop, keys_only = n, True               # for start, end in mapping: a loop over the intervals alone (validation only)
+            break
+    if loop is None:
         rep.unrec("C16.R2", f, "validity", "loop `for (start, end), value in mapping.items()` not found")
         return
-    s, e = (x.id for x in loop.target.elts[0].elts)
-    val = src(loop.target.elts[1])
+    if keys_only:
+        s, e = (x.id for x in loop.target.elts)
+        val = "?"
+    else:
+        s, e = (x.id for x in loop.target.elts[0].elts)
+        val = src(loop.target.elts[1])
     # validity test: first statement of the loop raises KeyError iff start > end
     first = loop.body[0]
     if not (isinstance(first, ast.If) and _raises(first.body)):
